@@ -17,10 +17,13 @@ esac
 make -j4 >/dev/null 2>&1; b=$?
 make -j4 check > $m/check.log 2>&1
 pass=$(grep -m1 '^# PASS:' $m/check.log | awk '{print $3}'); fail=$(grep -m1 '^# FAIL:' $m/check.log | awk '{print $3}'); err=$(grep -m1 '^# ERROR:' $m/check.log | awk '{print $3}')
-gcc $extra -I $wt $m/demo.c $lib -o $m/demo_with 2>$m/demo_build.log; $m/demo_with > $m/demo_with.out 2>&1; dw=$?
+# DEMO_SH=1: the demonstration is mutation/demo.sh (it builds what it needs itself, e.g. another configuration)
+if [ "${DEMO_SH:-0}" = 1 ]; then sh $m/demo.sh > $m/demo_with.out 2>&1; dw=$?
+else gcc $extra -I $wt $m/demo.c $lib -o $m/demo_with 2>$m/demo_build.log; $m/demo_with > $m/demo_with.out 2>&1; dw=$?; fi
 git apply -R $m/patch.diff || { echo "$id: cannot reverse"; exit 2; }
 make -j4 >/dev/null 2>&1
-gcc $extra -I $wt $m/demo.c $lib -o $m/demo_without 2>>$m/demo_build.log; $m/demo_without > $m/demo_without.out 2>&1; dwo=$?
+if [ "${DEMO_SH:-0}" = 1 ]; then sh $m/demo.sh > $m/demo_without.out 2>&1; dwo=$?
+else gcc $extra -I $wt $m/demo.c $lib -o $m/demo_without 2>>$m/demo_build.log; $m/demo_without > $m/demo_without.out 2>&1; dwo=$?; fi
 git apply $m/patch.diff
 rm -f $m/demo_with $m/demo_without
 echo "{\"id\":\"$id\",\"build\":$b,\"suite_pass\":${pass:-0},\"suite_fail\":${fail:-0},\"suite_error\":${err:-0},\"demo_exit_with_change\":$dw,\"demo_exit_without_change\":$dwo}" | tee $m/confirm.json
